@@ -82,6 +82,8 @@ extern "C" void h_stream() {
             }
         } else if (op == 2) {             // read(n)
             long n = (long)vp_concrete(vp_choose(MAXN + 2, "rn"));
+            // more declared than written: a read reaching behind the put position is outside the contract
+            if (m.fs > m.tellp && m.fs != 0x7fffffffffffffffL && n + m.tellg > m.tellp) { vp_reach("h_stream:end"); delete up; return; }
             unsigned char b[MAXN + 2]; memset(b, 0xEE, sizeof b);
             bool expectBlock = !m.ab && !(n + m.tellg <= m.tellp) && !(n + m.tellg > m.fs);
             bool blocked = false;
@@ -104,7 +106,7 @@ extern "C" void h_stream() {
             long t = m.tellg + off; if (t > m.fs) t = m.fs; m.tellg = t;
         } else if (op == 4) { u.nextLogContainer(); if (m.cend > m.tellp && m.tellp > m.cend - (long)m.csize) m.cend = m.tellp; }
         else if (op == 5) { u.dropOldData(); long l = m.tellg < m.tellp ? m.tellg : m.tellp; if (m.fs < l) l = m.fs; if (l > m.low) m.low = l; }
-        else if (op == 6) { long v = m.tellp; u.setFileSize(v); m.fs = v; }     // declare the end at the put position
+        else if (op == 6) { long v = m.tellp + (long)vp_concrete(vp_choose(4, "fsahead")); u.setFileSize(v); m.fs = v; }   // declare the end at / ahead of the put position
         else if (op == 7) { uint32_t c = 1 + (uint32_t)vp_concrete(vp_choose(3, "c")); u.setDefaultLogContainerSize(c); m.csize = c; A(u.defaultLogContainerSize() == c); }
         else { long b = 1 + (long)vp_concrete(vp_choose(4, "bs")); u.setBufferSize(b); m.bs = b; }   // small back-pressure threshold
         observe(u, m);
@@ -128,6 +130,7 @@ extern "C" void h_stream() {
     {
         u.setFileSize(m.tellp); m.fs = m.tellp;
         long rest = m.tellp - m.tellg;
+        if (!m.good) rest = 0;            /* a failed state persists (iostream-like) */
         if (rest > 0 && rest <= 32) {
             unsigned char b[32];
             bool blocked = false;
